@@ -113,7 +113,11 @@ class Scheduler(object):
       self.abort("step-bound", st)
       st.unwinding = True
       raise SchedAbort(self.aborted)
-    if pred is not None and not pred():
+    if pred is not None:
+      # a conditional yield point stays conditional until the thread is
+      # actually resumed: the predicate is re-evaluated at every choice, so a
+      # lock that was free when the thread arrived but has been taken since
+      # does not let it through (acquisition is atomic with being chosen)
       st.status, st.pred, st.blocked_on = "blocked", pred, blocked_on or label
     else:
       st.status, st.pred, st.blocked_on = "ready", None, None
@@ -347,6 +351,7 @@ class Harness(object):
     self.line_level = line_level
     self.thread_errors = []
     self.player_threads = []
+    self.extra_threads = []
 
   def __enter__(self):
     global SCHED
@@ -405,6 +410,37 @@ class Harness(object):
       sys.settrace(self._tracer)
     return self
 
+  def spawn(self, name, fn):
+    """Run fn on another managed thread (e.g. a second control thread)."""
+    sched = self.sched
+    token = object()
+    st = sched.new_thread(token, name)
+    harness = self
+
+    def body():
+      sched.pending.pop(id(token), None)
+      sched.by_ident[_real_threading.get_ident()] = st
+      st.gate.acquire()
+      try:
+        if sched.aborted:
+          return
+        if harness.line_level:
+          sys.settrace(harness._tracer)
+        fn()
+      except SchedAbort:
+        pass
+      except BaseException as exc:  # noqa
+        st.exc = exc
+        harness.thread_errors.append((st.name, repr(exc)))
+      finally:
+        sys.settrace(None)
+        sched.thread_done(st)
+    t = _real_threading.Thread(target=body, daemon=True)
+    self.extra_threads.append((t, st))
+    t.start()
+    sched.switch("spawn " + name)
+    return st
+
   def _tracer(self, frame, event, arg):
     if event == "call" and frame.f_code.co_filename.endswith("lazy_io.py"):
       return self._local
@@ -427,7 +463,7 @@ class Harness(object):
     if any(t.status != "done" for t in sched.order if t is not self.main):
       sched.abort(sched.aborted or "scenario-ended", self.main)
     stuck = 0
-    for thread, st in self.player_threads:
+    for thread, st in self.player_threads + self.extra_threads:
       if thread.ident is not None:
         _real_threading.Thread.join(thread, 10.0)
         if thread.is_alive():
